@@ -53,7 +53,10 @@ Section C01.
   Let run := @run num add sub mul div ltb eqb zero one inf neg_inf is_nan is_inf round12 of_nat L P.
   Let init := @init num sub zero inf neg_inf P.
   (* the quantifier domain (see Proofs/L1DBatch.v): told points inside the bounds;
-     a batched tell only when afterwards both end points are known or pending *)
+     a batched tell only when the resulting x bounding box equals the bounds.  Since the
+     repair of the batch path (/repo 0eef8ad: the box never shrinks below the domain) that
+     holds whenever no known or pending point lies outside the bounds; before it, it
+     required both end points to be known or pending -- the property's proviso *)
   Let legal := @L1DBatch.legal num add sub mul div ltb eqb zero one inf neg_inf is_nan is_inf round12 of_nat L P.
   Let loss := @loss num sub div ltb eqb inf is_nan is_inf round12 P.
   Let sweep := @sweep num sub mul div ltb eqb zero one is_nan is_inf round12 L P.
